@@ -256,9 +256,11 @@ def complex_add(document, cls, tags):
         if a.xml_choice_group is None:
             sequence.append(member)
         else:
+            # the group goes where its first member is: that's where the
+            # serializer writes it
+            if a.xml_choice_group not in choice_tags:
+                sequence.append(choice_tags[a.xml_choice_group])
             choice_tags[a.xml_choice_group].append(member)
-
-    sequence.extend(choice_tags.values())
 
     if len(sequence) > 0:
         sequence_parent.append(sequence)
